@@ -30,10 +30,10 @@ func init() { engines["format"] = formatEngine }
 type goldenRec struct {
 	File     string `json:"file"`
 	Options  string `json:"options"`
-	Dump     string `json:"dump"`      // hash of the canonical API dump
-	Decode   string `json:"decode"`    // first line of the Lean decode
-	Pages    string `json:"pages"`     // tree pages line
-	Freelist string `json:"freelist"`  // flpage + free lines
+	Dump     string `json:"dump"`     // hash of the canonical API dump
+	Decode   string `json:"decode"`   // first line of the Lean decode
+	Pages    string `json:"pages"`    // tree pages line
+	Freelist string `json:"freelist"` // flpage + free lines
 }
 
 var goldenDir = filepath.Join(baseDir(), "golden")
@@ -182,7 +182,6 @@ func genGolden(dir string) {
 	_ = os.WriteFile(filepath.Join(goldenDir, "expected.json"), b, 0o644)
 	fmt.Println("wrote", len(recs), "golden files")
 }
-
 
 // largeFreelistCase: the published format stores a freelist of 0xFFFF or more entries with
 // count = 0xFFFF and the real count in the first 8-byte slot.  A hand-assembled version-2 file
